@@ -47,7 +47,7 @@ class Plan:
             if d:
                 time.sleep(d)
         it = self.interrupt
-        if it is not None and it["fn"] == fn and it["tag"] == tag and it["iter"] == CTX["iter"] and it["call"] == idx:
+        if it is not None and it["fn"] == fn and (it["tag"] == tag or it.get("all_chains")) and it["iter"] == CTX["iter"] and it["call"] == idx:
             if it.get("signal") == "parent":
                 import signal
 
@@ -228,8 +228,32 @@ class EndLog(_Proxy):
         return new_state, stats
 
 
+class MidLog(_Proxy):
+    """A second statistics-bearing transition between the momentum and the final transition: logs its statistics."""
+
+    def sample(self, state, rng):
+        tag = int(getattr(state, "tag", -1))
+        it = CTX["iter"] if CTX["tag"] == tag else -1
+        new_state, stats = self.inner.sample(state, rng)
+        phase = CTX["phase"]
+        CTX["phase"] = None
+        _append(self.logdir, {"kind": "mid", "tag": tag, "iter": it, "pid": os.getpid(), "t": time.monotonic_ns(),
+                              "stats": None if stats is None else dict(stats)})
+        CTX["phase"] = phase
+        return new_state, stats
+
+
 def proxies():
     return StartMark, EndLog
+
+
+def files_holding(udir: str, arr, cache: dict | None = None) -> list[str]:
+    """Names of the .npy files in udir whose content equals arr (file NAMES are not part of any documented contract)."""
+    cache = {} if cache is None else cache
+    if "files" not in cache:
+        cache["files"] = {f.name: np.load(f, allow_pickle=False) for f in sorted(Path(udir).glob("*.npy"))}
+    a = np.asarray(arr)
+    return [n for n, b in cache["files"].items() if b.shape == a.shape and b.dtype == a.dtype and np.array_equal(b, a, equal_nan=b.dtype.kind == "f")]
 
 
 def _rng_state(rng):
@@ -277,7 +301,13 @@ def build(cfg: dict, logdir: str):
     tr = sampler.transitions
     tr["momentum_transition"] = start_cls(tr["momentum_transition"], logdir)
     tr["integration_transition"] = end_cls(tr["integration_transition"], logdir)
-    if cfg.get("front_end", "hmc") == "mcmc":
+    if cfg.get("front_end", "hmc") == "mcmc" and cfg.get("extra_transition"):
+        # two statistics-bearing transitions declaring the same statistic names
+        extra = mici.transitions.MetropolisStaticIntegrationTransition(system, integ, n_step=1)
+        tr = {"momentum_transition": tr["momentum_transition"], "extra_transition": MidLog(extra, logdir),
+              "integration_transition": tr["integration_transition"]}
+        sampler_obj = mici.samplers.MarkovChainMonteCarloMethod(rng, dict(tr))
+    elif cfg.get("front_end", "hmc") == "mcmc":
         sampler_obj = mici.samplers.MarkovChainMonteCarloMethod(rng, dict(tr))
     else:
         sampler_obj = sampler
